@@ -36,6 +36,9 @@ def run(tier, argv):
     rv = vlib.tlc(work, "GenGraph", "GenGraph.cfg", consts={"NTypes": "2", "Level": "1", "DropRequiredAtCut": "TRUE"}, allow_violation=True, timeout=1200)
     if not rv.violation:
         raise vlib.Infra("vacuous: switch DropRequiredAtCut no longer violates ExampleValid")
+    rv = vlib.tlc(work, "GenGraph", "GenGraph.cfg", consts={"NTypes": "2", "Level": "1", "ShiftItemsAtCut": "TRUE"}, allow_violation=True, timeout=1200)
+    if not rv.violation:
+        raise vlib.Infra("vacuous: switch ShiftItemsAtCut no longer violates ExampleValid")
     tr = work.path("trace.ndjson")
     p = vlib.run_harness(hbin, ["c15trace", "-cases", ",".join(files), "-out", tr], timeout=3000)
     if p.returncode != 0:
